@@ -121,6 +121,9 @@ class Ctx:
     def floor(self, rule, n, minimum, what):
         """Instance floor: a rule matching fewer sites than confirmed by hand
         must not pass vacuously."""
+        if n < minimum and self.findings:
+            # a reported violation already explains the missing instances
+            return
         if n < minimum:
             raise AnalysisError(
                 '%s matched %d %s, expected at least %d (vacuous rule)'
